@@ -60,6 +60,8 @@ theorem step_persist (h h' : Holder) (e : Ev) (t : Thread) (m : Lock)
     · cases hs
   | acc _ _ _ =>
     simp only [step] at hs; injection hs with hs; subst hs; exact hm
+  | fork _ _ _ =>
+    simp only [step] at hs; injection hs with hs; subst hs; exact hm
 
 theorem run_persist (evs : List Ev) (h h' : Holder) (t : Thread) (m : Lock)
     (hr : run h evs = some h') (hm : h m = some t) (hnr : ∀ e ∈ evs, ¬ Releases e t m) :
@@ -178,6 +180,10 @@ theorem localHeld_sound_aux (t : Thread) (m : Lock) (evs : List Ev) :
             simp [Holder.set, this, hm]
         · cases hs
       | acc _ _ _ =>
+        simp only [localHeld] at hl
+        simp only [step] at hs; injection hs with hs; subst hs
+        exact ih h h' b hr hb hl
+      | fork _ _ _ =>
         simp only [localHeld] at hl
         simp only [step] at hs; injection hs with hs; subst hs
         exact ih h h' b hr hb hl
@@ -400,6 +406,91 @@ theorem violatingPairsFrom_nil_compat (facts : List Access) :
         exact ⟨a, ⟨by simp, by simp [hn]⟩, rfl⟩
       exact hv _ this hc
     · exact ih c (fun p hp => hv p (by simp [violatingPairsFrom, hp])) a ha hc
+
+/-! ## Spawn order: the `pre` / `post` tags of the facts order their accesses
+
+  `exempt` accepts a pair when one access carries `pre ∋ s` (it precedes spawn statement `s` in
+  the function that executes `s`, and `s` runs once) and the other `post ∋ s` (its thread
+  descends from the thread `s` creates).  Until round 7 that was a named hypothesis of the
+  lockset theorem.  Here it is a theorem about traces with `fork` events: a spawned thread does
+  nothing before the `fork` that creates it (`ForkWF`, Go's semantics of `go`), hence every event
+  of a descendant of spawn `s` comes after a `fork … s` event, and an access tagged `pre ∋ s`
+  comes before every such event. -/
+
+/-- Go semantics of a spawn: the new thread is not the spawner, and has done nothing before -/
+def ForkWF (tr : List Ev) : Prop :=
+  ∀ (j : Nat) t t' s, tr[j]? = some (Ev.fork t t' s) →
+    t ≠ t' ∧ ∀ (i : Nat) e, i < j → tr[i]? = some e → evThread e ≠ t'
+
+/-- thread `u` was created by spawn statement `s`, or by a descendant of the thread `s` created -/
+inductive Desc (tr : List Ev) (s : Nat) : Thread → Prop
+  | direct (t t' : Thread) : Ev.fork t t' s ∈ tr → Desc tr s t'
+  | step (t t' : Thread) (s' : Nat) : Desc tr s t → Ev.fork t t' s' ∈ tr → Desc tr s t'
+
+/-- every step of a descendant of spawn `s` comes after a `fork … s` step -/
+theorem desc_after_fork (tr : List Ev) (hf : ForkWF tr) (s : Nat) (u : Thread) (hd : Desc tr s u) :
+    ∀ (i : Nat) e, tr[i]? = some e → evThread e = u →
+      ∃ (j : Nat) (t t' : Thread), j < i ∧ tr[j]? = some (Ev.fork t t' s) := by
+  induction hd with
+  | direct t t' hmem =>
+    intro i e hi hu
+    obtain ⟨j, hj⟩ := List.mem_iff_getElem?.mp hmem
+    obtain ⟨hne, hbefore⟩ := hf j t t' s hj
+    have hji : j < i := by
+      rcases Nat.lt_trichotomy i j with h | h | h
+      · exact absurd hu (hbefore i e h hi)
+      · subst h; rw [hj] at hi; injection hi with hi; subst hi
+        exact absurd hu hne
+      · exact h
+    exact ⟨j, t, t', hji, hj⟩
+  | step t t' s' _ hmem ih =>
+    intro i e hi hu
+    obtain ⟨j, hj⟩ := List.mem_iff_getElem?.mp hmem
+    obtain ⟨hne, hbefore⟩ := hf j t t' s' hj
+    have hji : j < i := by
+      rcases Nat.lt_trichotomy i j with h | h | h
+      · exact absurd hu (hbefore i e h hi)
+      · subst h; rw [hj] at hi; injection hi with hi; subst hi
+        exact absurd hu hne
+      · exact h
+    obtain ⟨j', t0, t0', hj', hfk⟩ := ih j (Ev.fork t t' s') hj rfl
+    exact ⟨j', t0, t0', Nat.lt_trans hj' hji, hfk⟩
+
+/-- what the `pre` / `post` tags of a fact claim about an access event that instantiates it:
+    `pre ∋ s` — spawn statement `s` has not been executed yet; `post ∋ s` — the accessing thread
+    descends from the thread `s` creates -/
+def ForkConforms (facts : List Access) (tr : List Ev) : Prop :=
+  ∀ (i : Nat) t x f, tr[i]? = some (Ev.acc t x f) →
+    ∃ a, facts[f]? = some a ∧
+      (∀ s ∈ a.pre, ∀ (j : Nat) u u', j < i → tr[j]? ≠ some (Ev.fork u u' s)) ∧
+      (∀ s ∈ a.post, Desc tr s t)
+
+/-- **Spawn order.**  Two accesses whose facts are exempted by `inter a.pre b.post` are ordered in
+    every trace: the `pre` access, then the `fork` of a spawn statement `s` common to both tag
+    lists, then the `post` access, whose thread descends from that spawn. -/
+theorem fork_tagged_pair_ordered (facts : List Access) (tr : List Ev) (hf : ForkWF tr)
+    (hc : ForkConforms facts tr) (i k : Nat) (t1 t2 : Thread) (x1 x2 : Loc) (f1 f2 : Nat)
+    (ha : tr[i]? = some (Ev.acc t1 x1 f1)) (hb : tr[k]? = some (Ev.acc t2 x2 f2))
+    (a b : Access) (hfa : facts[f1]? = some a) (hfb : facts[f2]? = some b)
+    (hin : inter a.pre b.post = true) :
+    ∃ (j : Nat) (t t' : Thread) (s : Nat),
+      i < j ∧ j < k ∧ tr[j]? = some (Ev.fork t t' s) ∧ s ∈ a.pre ∧ Desc tr s t2 := by
+  obtain ⟨a', ha', hpre, _⟩ := hc i t1 x1 f1 ha
+  obtain ⟨b', hb', _, hpost⟩ := hc k t2 x2 f2 hb
+  rw [hfa] at ha'; injection ha' with ha'; subst ha'
+  rw [hfb] at hb'; injection hb' with hb'; subst hb'
+  unfold inter at hin
+  rw [List.any_eq_true] at hin
+  obtain ⟨s, hsa, hsb⟩ := hin
+  have hsb' : s ∈ b.post := by simpa using hsb
+  have hd := hpost s hsb'
+  obtain ⟨j, t, t', hjk, hj⟩ := desc_after_fork tr hf s t2 hd k _ hb rfl
+  have hij : i < j := by
+    rcases Nat.lt_trichotomy j i with h | h | h
+    · exact absurd hj (hpre s hsa j t t' h)
+    · subst h; rw [ha] at hj; cases hj
+    · exact h
+  exact ⟨j, t, t', s, hij, hjk, hj, hsa, hd⟩
 
 /-! ## Object life cycle: a live or re-validated pointer is never seen torn down -/
 
@@ -655,5 +746,48 @@ example : staleReads liveFacts [0] 1 ⟨0, false⟩ ⟨1, true⟩ = [] ∧
 /-- and the rule is needed: the same table without the `live` flag has a stale read, and
     `staleTrace` above is an enabled history in which the use sees the object torn down -/
 example : staleReads [rd 0 0 [⟨1, true⟩] 1] [0] 1 ⟨0, false⟩ ⟨1, true⟩ = [(0, 0)] := by decide
+
+/-- non-vacuity of `fork_tagged_pair_ordered`: the F-shaped history "write, spawn, the child reads"
+    satisfies `ForkWF` and conforms to a table whose write is tagged `pre ∋ 7` and whose read is
+    tagged `post ∋ 7` (no lock anywhere: the pair passes `compat` only through the fork tags) -/
+def forkFacts : List Access :=
+  [{ wr 0 0 [] 1 with pre := [7] }, { rd 1 0 [] 2 with post := [7] }]
+def forkTrace : List Ev := [.acc 1 (0, 5) 0, .fork 1 2 7, .acc 2 (0, 5) 1]
+
+example : checkClass forkFacts 0 = true ∧ WF forkTrace ∧ ForkWF forkTrace ∧ ForkConforms forkFacts forkTrace := by
+  refine ⟨by decide, by unfold WF; decide, ?_, ?_⟩
+  · intro j t t' s h
+    match j, h with
+    | 0, h => simp [forkTrace] at h
+    | 1, h =>
+      simp only [forkTrace, List.getElem?_cons_succ, List.getElem?_cons_zero, Option.some.injEq,
+        Ev.fork.injEq] at h
+      obtain ⟨rfl, rfl, rfl⟩ := h
+      refine ⟨by decide, ?_⟩
+      intro i e hi he
+      match i, hi, he with
+      | 0, _, he => simp [forkTrace] at he; subst he; simp [evThread]
+    | 2, h => simp [forkTrace] at h
+    | n + 3, h => simp [forkTrace] at h
+  · intro i t x f h
+    match i, h with
+    | 0, h =>
+      simp only [forkTrace, List.getElem?_cons_zero, Option.some.injEq, Ev.acc.injEq] at h
+      obtain ⟨rfl, rfl, rfl⟩ := h
+      refine ⟨forkFacts[0], rfl, ?_, ?_⟩
+      · intro s _ j u u' hj; omega
+      · intro s hs; simp [forkFacts, wr, rd] at hs
+    | 1, h => simp [forkTrace] at h
+    | 2, h =>
+      simp only [forkTrace, List.getElem?_cons_succ, List.getElem?_cons_zero, Option.some.injEq,
+        Ev.acc.injEq] at h
+      obtain ⟨rfl, rfl, rfl⟩ := h
+      refine ⟨forkFacts[1], rfl, ?_, ?_⟩
+      · intro s hs; simp [forkFacts, wr, rd] at hs
+      · intro s hs
+        have : s = 7 := by simpa [forkFacts, wr, rd] using hs
+        subst this
+        exact Desc.direct 1 2 (by simp [forkTrace])
+    | n + 3, h => simp [forkTrace] at h
 
 end OllamaVerif.Lockset
